@@ -3,6 +3,7 @@ static evlog_t *cur;
 static void hook(int phase, int dtype, int jcol, double u, int usepr, int pivrow, int diagind, int ncand,
                  const int_t *rows, const void *vals, int info) {
     evlog_t *lg = cur; if (!lg) return;
+    if (ncand < 0) ncand = 0;   /* after a zero pivot a supernode may hold fewer rows than columns (open finding) */
     if (phase == 0) {
         if (lg->n == lg->cap) { lg->cap = lg->cap ? 2 * lg->cap : 64; lg->ev = realloc(lg->ev, sizeof(pivev_t) * lg->cap); }
         if (lg->npool + ncand + 1 > lg->poolcap) {
